@@ -241,7 +241,7 @@ int main(int argc, char** argv) {
   }
   static const size_t sizes_q[] = { 1, 8, 24, 100, 1000, 4096, 9000, 70000, 140000, 3000000 };
   static const size_t sizes_t[] = { 1, 2, 7, 8, 9, 16, 24, 48, 100, 511, 1000, 1024, 4096, 8192, 9000, 65536, 70000,
-                                    131072, 140000, 1000000, 3000000, 20000000, 40000000 };
+                                    131072, 140000, 1000000, 3000000, 20000000 };
   static const size_t aligns_q[] = { 8, 16, 64, 4096, 65536 };
   static const size_t aligns_t[] = { 8, 16, 32, 64, 256, 4096, 65536, (size_t)1 << 21, (size_t)1 << 24, (size_t)1 << 26 };
   const size_t* sizes = thorough ? sizes_t : sizes_q;
